@@ -7,6 +7,9 @@ package routeh
 import (
 	"fmt"
 	"math"
+	"os"
+	"path/filepath"
+	"runtime"
 	"sort"
 
 	"github.com/ctessum/geom"
@@ -54,6 +57,7 @@ type link struct {
 }
 
 type run struct {
+	pairFine   bool // the running pair may be interleaved between any two statements of package route
 	t          *tape.Tape
 	log        *core.Log
 	res        *core.Result
@@ -75,6 +79,18 @@ func (e *engine) Run(t *tape.Tape, trace bool) core.Result {
 	res := core.Result{}
 	r := &run{t: t, log: core.NewLog(trace), res: &res, pairs: map[[2]int]int{}, nodes: map[int]geom.Point{}, perms: core.NewHasher(), states: map[uint64]struct{}{}}
 	route.SimOrder = r.orderHook
+	// statement-level yield points (inserted by tools/hookfill at build time):
+	// live only while a fine-grained pair of queries is running
+	route.SimYield = func() {
+		if r.pair != nil && r.pairFine {
+			if os.Getenv("VERIF_SCHED_DEBUG") != "" {
+				_, file, line, _ := runtime.Caller(2)
+				fmt.Fprintf(os.Stderr, "  yield at %s:%d by t%d\n", filepath.Base(file), line, r.pair.Cur().ID())
+			}
+			r.pair.Yield("stmt", nil)
+		}
+	}
+	defer func() { route.SimYield = nil }()
 	defer func() { route.SimOrder = nil }()
 	r.exec()
 	res.LogHash = r.log.Hash()
@@ -92,7 +108,21 @@ func (e *engine) Run(t *tape.Tape, trace bool) core.Result {
 
 // order is the simulator-owned replacement for map iteration order.
 func (r *run) order(nodes []graph.Node) {
-	sort.Slice(nodes, func(i, j int) bool { return nodes[i].ID() < nodes[j].ID() })
+	// (ID() is code under test and may contain an inserted yield point: call it
+	// exactly once per node, not from the comparator, whose number of calls
+	// depends on the incoming map order)
+	type idn struct {
+		id int64
+		n  graph.Node
+	}
+	tmpIDs := make([]idn, len(nodes))
+	for i, n := range nodes {
+		tmpIDs[i] = idn{n.ID(), n}
+	}
+	sort.Slice(tmpIDs, func(i, j int) bool { return tmpIDs[i].id < tmpIDs[j].id })
+	for i := range nodes {
+		nodes[i] = tmpIDs[i].n
+	}
 	if !r.permute || len(nodes) < 2 {
 		return
 	}
@@ -465,7 +495,13 @@ func (r *run) query() {
 		}
 		var o [2]out
 		strat := []string{sched.Uniform, sched.Sticky, sched.RoundRobin}[t.Choose(3, "pair-strategy")]
-		sc := sched.New(t, r.log, strat, 200000)
+		sc := sched.New(t, r.log, strat, 3000000)
+		// (statement-level interleaving multiplies the number of steps by the
+		// statements executed: only on small networks)
+		r.pairFine = t.OneIn(3, "pair-fine-grained") && len(r.links) <= 80
+		if r.pairFine {
+			r.res.Probe("fine-grained-pair(statement-level yields)")
+		}
 		r.pair = sc
 		q := [2][2]geom.Point{{from, to}, {from2, to2}}
 		for i := 0; i < 2; i++ {
